@@ -110,11 +110,15 @@ func (r *Run) oracleC04() {
 	}
 	// (c) rejected stacks
 	rejected := map[[4]uint64]VerifyRec{}
+	rejections := map[[4]uint64]int{} // the same stack may be re-built (a value reported again) and rejected again
 	for _, v := range r.verifies {
 		if !v.Failed || r.isEnableVerify(v) {
 			continue
 		}
-		rejected[v.Stamps] = v
+		if _, seen := rejected[v.Stamps]; !seen {
+			rejected[v.Stamps] = v
+		}
+		rejections[v.Stamps]++
 		f := r.fresh(v.Stamps)
 		if f.err == nil && f.valid {
 			// the type's Verify rejected a stack the harness predicate accepts: the stack itself is wrong
@@ -144,21 +148,22 @@ func (r *Run) oracleC04() {
 			if !errors.Is(cb.Err, errVerify) {
 				r.fail("C04.on-watched-error", "OnWatchedError for the rejected stack %v got error %v, not the Verify error", v.Stamps, cb.Err)
 			}
-			if cb.Old != r.installs[cur].Ptr {
+			if cb.Old != r.installs[cur].Ptr && rejections[v.Stamps] == 1 {
 				r.fail("C04.on-watched-error", "OnWatchedError for the rejected stack %v got oldConfig %p, the current config was %p (serial %d)", v.Stamps, cb.Old, r.installs[cur].Ptr, r.installs[cur].Serial)
 			}
-			if cb.New != v.Ptr {
+			if cb.New != v.Ptr && rejections[v.Stamps] == 1 {
 				r.fail("C04.on-watched-error", "OnWatchedError for the rejected stack %v got newConfig %p, the rejected config was %p", v.Stamps, cb.New, v.Ptr)
 			}
 			if cb.Enter < v.Step {
 				r.fail("C04.on-watched-error", "OnWatchedError for the rejected stack %v entered at step %d, before the rejection at step %d", v.Stamps, cb.Enter, v.Step)
 			}
 		}
-		if r.keepUp() && r.sc.GlobalCB != "block" && matches != 1 {
-			r.fail("C04.on-watched-error", "the stack %v was rejected at step %d; OnWatchedError was called %d times for it (callbacks kept up: occupancy bound %d)", v.Stamps, v.Step, matches, r.maxQueue)
+		n := rejections[v.Stamps]
+		if r.keepUp() && r.sc.GlobalCB != "block" && matches != n {
+			r.fail("C04.on-watched-error", "the stack %v was rejected %d time(s), first at step %d; OnWatchedError was called %d times for it (callbacks kept up: occupancy bound %d)", v.Stamps, n, v.Step, matches, r.maxQueue)
 		}
-		if matches > 1 {
-			r.fail("C04.on-watched-error", "OnWatchedError was called %d times for the one rejection of stack %v", matches, v.Stamps)
+		if matches > n {
+			r.fail("C04.on-watched-error", "OnWatchedError was called %d times for %d rejection(s) of stack %v", matches, n, v.Stamps)
 		}
 	}
 	// stack errors: newConfig must be nil, oldConfig an installed version
